@@ -487,7 +487,7 @@ func (h *harness) fullServer(rng *rand.Rand, seqWorlds, concWorlds int) {
 
 func main() {
 	r := ev.New("C06", "exploration")
-	r.Rule("one case = one simulated cluster history (world seed -> split/merge/conf-change/leader-change/size events; plan seed -> per-snapshot delay, loss, duplication, stale re-delivery, stream assignment) delivered to a fresh RaftCluster; sequential cases are distinct by the sequence of per-delivery outcomes (new/newer/displacing/same-epoch accepted, stale-same-id, stale-overlap, rejected) and count only when they contain a stale rejection and a displacement; concurrent cases are distinct by the accept/reject pattern per stream in call order and count only when same-id deliveries overlapped in time and something was rejected; directed racing pairs (delayed merge heartbeat of a cached region vs first heartbeat(s) of newer region ids inside the merged range, 4 layouts x 3 yield modes) are distinct by layout, yield mode and accept/refuse outcome")
+	r.Rule("one case = one simulated cluster history (world seed -> split/merge/conf-change/leader-change/size events; plan seed -> per-snapshot delay, loss, duplication, stale re-delivery, stream assignment) delivered to a fresh RaftCluster; sequential cases are distinct by the sequence of per-delivery outcomes (new/newer/displacing/same-epoch accepted, stale-same-id, stale-overlap, rejected) and count only when they contain a stale rejection and a displacement; concurrent cases are distinct by the accept/reject pattern per stream in call order and count only when same-id deliveries overlapped in time and something was rejected; directed racing pairs (delayed merge heartbeat of a cached region vs first heartbeat(s) of newer region ids inside the merged range, 4 layouts x 3 yield modes) are distinct by layout, yield mode and accept/refuse outcome; racing-grid cases (all heartbeats of 2-3 consecutive directed events released together) by event shape, fault mode, accept/refuse pattern and number of yielding goroutines; populated-cluster worlds like sequential / concurrent ones")
 	r.Assume("racing pairs: pd's global logger is replaced by a zap core that, only for the goroutine delivering the merge heartbeat, yields at pd's own log calls between the unlocked validation and the cluster lock (bounded wait for the other goroutine's calls to return, or Gosched); a delay at a pre-emption point, no semantic change; no wall-clock value enters a verdict")
 	r.Assume("the world simulator follows the store-side epoch rules (split: version += pieces-1 for all pieces; merge: prepare source version+1 conf_ver+1, commit target version = max+1; conf change conf_ver+1; leader change term+); hence of two snapshots with intersecting ranges and different id or range the earlier one has the smaller version")
 	r.Assume("light harness: cluster.NewRaftCluster + InitCluster(mockid, default options, core.NewStorage(kvx(memory kv)), BasicCluster with 4-6 up stores), heartbeats through the verif hook VerifProcessRegionHeartbeat (no coordinator); thorough tier additionally a real single-member server (HandleRegionHeartbeat, gRPC handler methods called on the server object, cluster storage replaced by kvx(memory kv))")
@@ -548,7 +548,7 @@ func main() {
 	lap("racing_pairs")
 	h.racingGrid(rand.New(rand.NewSource(r.ShardSeed()^0x961d)), r.Pick(480, 2400))
 	lap("racing_grid")
-	h.scaleWorlds(rand.New(rand.NewSource(r.ShardSeed()^0x5ca1e)), r.Pick(2000, 18000), r.Pick(120, 300), streams)
+	h.scaleWorlds(rand.New(rand.NewSource(r.ShardSeed()^0x5ca1e)), r.Pick(2000, 14000), r.Pick(150, 300), streams)
 	lap("scale")
 	h.canonicalD12()
 	r.Set("phase_seconds", phases)
